@@ -19,9 +19,17 @@ from kirin.dialects import ilist
 from bloqade.shuttle import action, atom, filled, gate, init, measure, schedule, spec
 from bloqade.shuttle.prelude import kernel, tweezer, move
 
+from bloqade.shuttle.arch import ArchSpec as _ArchSpec
+SPEC_FOR_COMPOUND = _ArchSpec()
+
 @tweezer
 def tk(g: grid.Grid[Any, Any]):
     action.set_loc(g)
+
+@tweezer
+def tk2(g: grid.Grid[Any, Any], a: float):
+    action.set_loc(g)
+    action.move(grid.shift(g, a, 0.0))
 
 '''
 
@@ -128,6 +136,15 @@ COMPOUND = [
     m = measure.measure((g,))
     if n > 1:
         gate.top_hat_cz(spec.get_static_trap(zone_id="traps"))
+"""),
+    ("move(arch_spec=SPEC_FOR_COMPOUND)", """def k(x: float):
+    d = schedule.device_fn(tk2, [0], [0])
+    zone = spec.get_static_trap(zone_id="traps")[0:1, 0:1]
+    d(zone, 2.0)
+    d(zone, x)
+    d(grid.shift(zone, x, 0.0), 1.0)
+    r = schedule.reverse(d)
+    r(zone, a=x)
 """),
     ("kernel", """def k(g: grid.Grid[Any, Any], q):
     a = atom.new(g, q)
@@ -272,6 +289,17 @@ def outer_free_nofold():
     def inner(h: grid.Grid[Any, Any]):
         action.set_loc(h)
     return inner
+
+@tweezer
+def factory(dx: float):
+    def inner(h: grid.Grid[Any, Any]):
+        action.set_loc(h)
+        action.move(grid.shift(h, dx, 0.0))
+    return inner
+
+@move
+def made_in_move(dx: float):
+    return factory(dx)
 '''
 
 
@@ -354,7 +382,8 @@ def tracer_guard(ctx):
                                     T.load_source(CUSTOM_GROUP_SRC, "guardcustom").ck, True),
                                    ("closure capturing a value", mod.outer(G), False),
                                    ("closure capturing nothing", mod.outer_free(), False),
-                                   ("closure capturing nothing (fold=False)", mod.outer_free_nofold(), False)):
+                                   ("closure capturing nothing (fold=False)", mod.outer_free_nofold(), False),
+                                   ("tweezer closure made by a factory that a move kernel called", mod.made_in_move(1.5), False)):
         it = TraceInterpreter(ArchSpec())
         case = {"tracer_guard": kind}
         ctx.seen(("guard", kind), True)
